@@ -7,6 +7,9 @@ def T(qcases, tcases, qbudget=240, tbudget=1500, workers=16):
             "thorough": dict(cases=tcases, budget_s=tbudget, workers=workers)}
 
 PROPS = {
+    "C09": dict(sources=["props/C09.cpp"], jls=True, tiers=T(400, 6000),
+                assumptions=["gap fill must read back as NaN (any NaN) for f32/f64 and as 0 for integers",
+                             "stored level-1 summaries are observed through summary-aligned jls_rd_fsr_statistics requests (increment = sample_decimate_factor, >= 25 entries); the last requested entry is recomputed from raw samples by the reader and is not judged"]),
     "C01": dict(sources=["props/C01.cpp"], jls=True, tiers=T(300, 5000),
                 assumptions=["reader buffers are exactly the size reader.h documents (1 + n*bits/8 bytes for sub-byte types)",
                              "contiguous writes only (gaps/overlaps are C09); quick tier <= ~50k samples per case"]),
@@ -29,6 +32,10 @@ PROPS = {
 HOOK_COMMITS = ["6203c3e4032b5e35344eee56bc8020982a6abdeb"]
 
 MANIFEST_TEXT = {
+    "C09": dict(
+        technique="model-based property testing: generated gap/overlap write scripts against a model with fill (NaN/0) and keep-first rules; stored summaries observed through aligned statistics requests",
+        level_text="Scripts over all 15 data types mixing contiguous writes, gaps (1 sample .. several internal fill buffers) and overlaps (partial/total, every sub-byte phase) placed around block edges; length, every sample (gap samples NaN/0, others bit-exact, overlapping data deliberately different from the stored one) and level-1 summaries of float windows containing gap samples are compared with the model.",
+        level_note="Trusted: the model's fill and keep-first rules (taken from writer.h / the property text). Gaps are bounded (<= ~300k samples) to keep files small."),
     "C01": dict(
         technique="model-based property testing: generated writer programs x generated read scripts against an in-memory sample model (bit vectors), exact-size ASan buffers",
         level_text="Generated programs over all 15 data types, definition shapes (minimal, small random, defaults, odd), first sample ids up to +-2^60, contiguous streams cut at block edges and interleaved across 1-4 signals, reaching 1-4 summary levels; read scripts anchored at block boundaries, the last sample and sub-byte phases, interleaved with other reader calls. Length and every window compared bit-for-bit with the model. Sampling; failures shrink to a few ops and are kept as corpus files.",
